@@ -9,6 +9,8 @@ package outputstream
 // I/O error) succeeds. Proved against the body below (plan C08); callers
 // (sendMessages) use the contract.
 //@ func OutputStream.Add
+// the error return is unreachable under the no-I/O-error assumption
+//@   opt dead = return#0
 //@   requires nonempty: os != nil && len(msgs) > 0
 //@   requires wf: wfOS(os) && wfLast(os)
 //@   ensures noerror: result == nil
